@@ -38,7 +38,34 @@ func genE2ETail(r *rand.Rand) e2eCase {
 	st := newGraph(ctx, "?g", ts)
 	ex := tailExtra{}
 	var outs []string
-	if r.Intn(10) < 6 {
+	where, baseSel := `{?s "w"@[] ?x}`, "?s, ?x"
+	if r.Intn(10) < 3 {
+		// two grouping keys whose values interleave (type and id of the subject); the SELECT list, the GROUP BY list and
+		// the ORDER BY list name them in INDEPENDENT orders and directions
+		c.Shape = "grouped-two"
+		where, baseSel = `{?s TYPE ?ty ID ?id "w"@[] ?x}`, "?ty, ?id, ?x"
+		keys := []jproj{{Bind: "?ty"}, {Bind: "?id"}}
+		if r.Intn(3) == 0 {
+			keys[r.Intn(2)].Alias = "?k"
+		}
+		aggs := []jproj{{Bind: "?x", Alias: "?n", Op: "count"}}
+		if r.Intn(2) == 0 {
+			aggs = append(aggs, jproj{Bind: "?x", Alias: "?t", Op: "sum"})
+		}
+		all := append(append([]jproj{}, keys...), aggs...)
+		r.Shuffle(len(all), func(i, j int) { all[i], all[j] = all[j], all[i] })
+		ex.Projs = all
+		for _, k := range keys {
+			g := k.Bind
+			if k.Alias != "" {
+				g = k.Alias
+			}
+			ex.GroupBy = append(ex.GroupBy, g)
+		}
+		if r.Intn(2) == 0 {
+			ex.GroupBy[0], ex.GroupBy[1] = ex.GroupBy[1], ex.GroupBy[0]
+		}
+	} else if r.Intn(10) < 6 {
 		c.Shape = "grouped"
 		ex.Projs = []jproj{{Bind: "?s"}, {Bind: "?x", Alias: "?n", Op: "count"}, {Bind: "?x", Alias: "?t", Op: "sum"}}
 		switch r.Intn(4) {
@@ -77,11 +104,18 @@ func genE2ETail(r *rand.Rand) e2eCase {
 			outs = append(outs, p.Bind)
 		}
 	}
-	q := "SELECT " + strings.Join(ps, ", ") + ` FROM ?g WHERE {?s "w"@[] ?x}`
+	q := "SELECT " + strings.Join(ps, ", ") + " FROM ?g WHERE " + where
 	if len(ex.GroupBy) > 0 {
 		q += " GROUP BY " + strings.Join(ex.GroupBy, ", ")
 	}
-	if r.Intn(4) != 0 {
+	if c.Shape == "grouped-two" && r.Intn(2) == 0 {
+		// ORDER BY = a prefix of the GROUP BY list (mostly ascending): what an "already sorted by Reduce" shortcut would look for
+		n := 1 + r.Intn(2)
+		for _, g := range ex.GroupBy[:n] {
+			ex.Keys = append(ex.Keys, jkey{B: g, Desc: r.Intn(4) == 0})
+		}
+		q += orderByText(ex.Keys, r)
+	} else if r.Intn(4) != 0 {
 		nk := 1 + r.Intn(2)
 		dir := map[string]bool{}
 		for i := 0; i < nk; i++ {
@@ -100,6 +134,10 @@ func genE2ETail(r *rand.Rand) e2eCase {
 		leaf := func() []*lexer.Token {
 			b := outs[r.Intn(len(outs))]
 			var rhs *lexer.Token
+			if b == "?ty" || b == "?id" || b == "?k" { // extracted strings compare with text literals only
+				return []*lexer.Token{tkn(lexer.ItemBinding, b), cmpOp(r),
+					tkn(lexer.ItemLiteral, pickS(r, []string{`"a"^^type:text`, `"b"^^type:text`, `"c"^^type:text`, `"/u"^^type:text`, `"/t"^^type:text`, `"d"^^type:text`}))}
+			}
 			switch r.Intn(6) {
 			case 0:
 				rhs = tkn(lexer.ItemNode, pickS(r, nodeTexts[:4]))
@@ -128,13 +166,13 @@ func genE2ETail(r *rand.Rand) e2eCase {
 	if ex.Tokens == nil {
 		ex.Tokens = []jtok{}
 	}
-	if r.Intn(2) == 0 {
+	if r.Intn(2) == 0 || (c.Shape == "grouped-two" && r.Intn(2) == 0) {
 		l := int64(r.Intn(5))
 		ex.Limit = &l
 		q += fmt.Sprintf(` LIMIT "%d"^^type:int64`, l)
 	}
 	c.Q = q + ";"
-	c.BaseQ = `SELECT ?s, ?x FROM ?g WHERE {?s "w"@[] ?x};`
+	c.BaseQ = "SELECT " + baseSel + " FROM ?g WHERE " + where + ";"
 	c.Extra = ex
 	c.Base, _ = runQuery(ctx, st, c.BaseQ)
 	c.Res, _ = runQuery(ctx, st, c.Q)
